@@ -3,7 +3,7 @@ import numpy as np
 from ... import graph, grouping, util
 from ...constants import tol_path
 from ...typed import ArrayLike, Dict, NDArray, Optional
-from ..entities import Arc, Line
+from ..entities import Arc, Bezier, BSpline, Line
 
 
 def dict_to_path(as_dict):
@@ -24,7 +24,7 @@ def dict_to_path(as_dict):
     # start kwargs with initial value
     result = as_dict.copy()
     # map of constructors
-    loaders = {"Arc": Arc, "Line": Line}
+    loaders = {"Arc": Arc, "Line": Line, "Bezier": Bezier, "BSpline": BSpline}
     # pre- allocate entity array
     entities = [None] * len(as_dict["entities"])
     # run constructor for dict kwargs
@@ -34,6 +34,8 @@ def dict_to_path(as_dict):
             # only an Arc stores `closed`, for a Line it
             # is a read-only property derived from its points
             kwargs["closed"] = entity.get("closed")
+        elif entity["type"] == "BSpline":
+            kwargs["knots"] = entity["knots"]
         entities[entity_index] = loaders[entity["type"]](**kwargs)
     result["entities"] = entities
 
